@@ -8,6 +8,7 @@ import (
 	"sort"
 	"strings"
 	"sync"
+	"time"
 )
 
 const tbResourceProgram = `
@@ -377,9 +378,73 @@ func tbC06(c *Ctx, env *TBEnv, nprogs int) {
 			specs = append(specs, &s)
 			metas = append(metas, meta{prog: p, job: j, kind: kind, ref: refI})
 		}
+		// bounded auto retry: a job that dies EVERY time with a transient-classified failure (killed by
+		// SIGKILL: "signal: killed" matches retry_on) under --autoretry=N runs at most 1+N times, then mrp
+		// exits non-zero naming the stage
+		for _, n := range []int{1, 2} {
+			// every job is affected, so that whichever job runs first is hit (which jobs run depends on
+			// run-time flags); the job judged is the one executed most often
+			j := "*"
+			s := base
+			s.Name = fmt.Sprintf("%s#always-killed:autoretry=%d", p.Name, n)
+			s.Control.Faults = map[string]tbFault{}
+			for _, jj := range jobs {
+				s.Control.Faults[jj] = tbFault{Kind: "signal", Once: false}
+			}
+			s.Retries = n
+			s.Timeout = 30 * time.Second
+			specs = append(specs, &s)
+			metas = append(metas, meta{prog: p, job: j, kind: fmt.Sprintf("retry%d", n), ref: refI})
+		}
 	}
 	results := tbParallel(env, c, specs, 4)
 	for i, m := range metas {
+		if m.ref >= 0 && strings.HasPrefix(m.kind, "retry") {
+			ref, res := results[m.ref], results[i]
+			if ref.Final != "complete" {
+				continue
+			}
+			n := specs[i].Retries
+			runs := 0
+			perJob := map[string]int{}
+			for _, l := range res.Log {
+				if l.Ev == "end" && l.Outcome == "sigkill" {
+					perJob[l.Job]++
+					if perJob[l.Job] > runs {
+						runs = perJob[l.Job]
+						m.job = l.Job
+					}
+				}
+			}
+			r.count(specs[i].Name, runs > 1)
+			r.hist("tierB_autoretry_runs")
+			if runs == 0 {
+				r.hist("tierB_fault_not_reached")
+				continue
+			}
+			input := map[string]interface{}{"program": m.prog.Src, "fault_job": m.job, "fault": "killed by SIGKILL at every execution", "autoretry": n, "executions": runs}
+			last := res.Incs[len(res.Incs)-1]
+			stage := m.job
+			if k := strings.Index(stage, ".fork"); k >= 0 {
+				stage = stage[:k]
+			}
+			stage = stage[strings.LastIndex(stage, ".")+1:]
+			switch {
+			case runs > 1+n:
+				r.violate(Violation{Kind: "property", Key: "C06:tierB-autoretry-unbounded",
+					What:  fmt.Sprintf("with --autoretry=%d job %s, which fails the same transient way every time, was executed %d times (bound: %d)", n, m.job, runs, 1+n),
+					Input: input, Impl: last.Output})
+			case last.TimedOut || last.ExitCode == 0:
+				r.violate(Violation{Kind: "property", Key: "C06:tierB-autoretry-no-failure",
+					What:  fmt.Sprintf("with --autoretry=%d and a job that always fails, mrp did not end with a non-zero exit status (timed out: %v, exit %d)", n, last.TimedOut, last.ExitCode),
+					Input: input, Impl: last.Output})
+			case !strings.Contains(last.Output, stage):
+				r.violate(Violation{Kind: "property", Key: "C06:tierB-error-does-not-name-stage:autoretry",
+					What:  fmt.Sprintf("mrp's failure report after exhausting the retries does not name the failing stage %s", stage),
+					Input: input, Impl: last.Output})
+			}
+			continue
+		}
 		if m.ref < 0 {
 			r.hist("tierB_ref_" + results[i].Final)
 			continue
